@@ -126,3 +126,21 @@ contract(P + 'stop_task_done',
          },
          modifies=['self.stop_task_id', 'self.stop_task_finished'],
          props=PROPS)
+
+contract('cylc.flow.id:Tokens.__getitem__', sorts={'self': 'Tokens', 'key': 'str', 'result': 'str'},
+         pure=True, assumed=True, props=PROPS,
+         note='a token of the identifier (C23); a missing token (None) is modelled as some text that names no '
+              'task: `None in taskdefs` is False like an unknown name')
+contract('cylc.flow.task_id:TaskID.get_standardised_taskid', sorts={'task_id': 'str', 'result': 'str'},
+         pure=True, assumed=True, props=PROPS, note='standardises the cycle point text of the identifier')
+
+contract(P + 'set_stop_task',
+         sorts={'self': 'TaskPool', 'task_id': 'str', 'tokens': 'Tokens', 'name': 'str'},
+         ensures={
+             'a-new-stop-task-is-never-already-finished':
+                 'implies(self.stop_task_id != old(self.stop_task_id), not self.stop_task_finished)',
+             'an-unknown-task-name-changes-nothing':
+                 'self.stop_task_id == old(self.stop_task_id) or not self.stop_task_finished',
+         },
+         modifies=['self.stop_task_id', 'self.stop_task_finished'],
+         props=PROPS)
